@@ -398,6 +398,81 @@ example :
       = .ok [[9]] := by
   decide +kernel
 
+/-! ### the main theorems APPLIED (every hypothesis instantiated)
+
+Same file as above: header `[9]`, events `2_3⇥5_6`, `3⇥5`, `2_2⇥` (tab = 0,
+`_` = 1); keep cue 2, remove outcome 5. -/
+
+def exLines : List (Str Nat) := [[9], [2, 1, 3, 0, 5, 1, 6], [3, 0, 5], [2, 1, 2, 0]]
+
+/-- `filter_order` APPLIED: `selectRule` of both sides by `rfl`, chunk size 2,
+    well-formedness of the three event lines by evaluation; the conclusion is
+    the theorem's (output = header + `filterMap` of the per-event function). -/
+example :
+    filterEventFile 0 1 ⟨some [[2]], none, none⟩ ⟨none, some [[5]], none⟩ 2 exLines
+      = .ok ([9] :: exLines.tail.filterMap (applyRules 0 1 (.keep [[2]]) (.remove [[5]]))) :=
+  filter_order (χ := Nat) 0 1 _ _ _ _ rfl rfl 2 (by omega) [9] exLines.tail (by decide +kernel)
+
+/-- `chunk_independent` and `imap_eq_map` APPLIED: chunk sizes 2 and 5. -/
+example :
+    filterEventFile 0 1 ⟨some [[2]], none, none⟩ ⟨none, some [[5]], none⟩ 2 exLines
+      = filterEventFile 0 1 ⟨some [[2]], none, none⟩ ⟨none, some [[5]], none⟩ 5 exLines ∧
+    imap (fun x : Nat => x + 1) [1, 2, 3, 4, 5] 2 = [1, 2, 3, 4, 5].map (fun x => x + 1) :=
+  ⟨chunk_independent (χ := Nat) 0 1 _ _ 2 5 (by omega) (by omega) exLines,
+   imap_eq_map _ _ 2 (by omega)⟩
+
+/-- `map_id_eq_keep` APPLIED: the literal identity dict on `S = {2}` (its
+    hypothesis `hm` is `Filter.lookupD_idMap` = `idMap_is_identity` below; `[] ∉ S` by `decide`), outcome side
+    `remove {5}`, chunk size 2 — cue side and outcome side. -/
+example :
+    filterEventFile 0 1 ⟨none, none, some (idMap [[2]])⟩ ⟨none, some [[5]], none⟩ 2 exLines
+      = filterEventFile 0 1 ⟨some [[2]], none, none⟩ ⟨none, some [[5]], none⟩ 2 exLines ∧
+    filterEventFile 0 1 ⟨none, some [[5]], none⟩ ⟨none, none, some (idMap [[2]])⟩ 2 exLines
+      = filterEventFile 0 1 ⟨none, some [[5]], none⟩ ⟨some [[2]], none, none⟩ 2 exLines :=
+  map_id_eq_keep (χ := Nat) 0 1 (idMap [[2]]) [[2]] (lookupD_idMap [[2]]) (by decide)
+    ⟨none, some [[5]], none⟩ 2 exLines
+
+/-- `select_idem`, `keep_idem`, `remove_idem` APPLIED: `tab ≠ us` is `0 ≠ 1`, the
+    first pass (chunk size 1) is evaluated, the second pass uses chunk size 7;
+    the output of the first pass has a line with an empty outcome field. -/
+example :
+    filterEventFile 0 1 ⟨some [[2]], none, none⟩ ⟨none, some [[5]], none⟩ 7 [[9], [2, 0, 6], [2, 1, 2, 0]]
+      = .ok [[9], [2, 0, 6], [2, 1, 2, 0]] ∧
+    filterEventFile 0 1 ⟨some [[2]], none, none⟩ ⟨none, none, none⟩ 3 [[9], [2, 0, 5, 1, 6], [2, 1, 2, 0]]
+      = .ok [[9], [2, 0, 5, 1, 6], [2, 1, 2, 0]] ∧
+    filterEventFile 0 1 ⟨none, none, none⟩ ⟨none, some [[5]], none⟩ 3
+        [[9], [2, 1, 3, 0, 6], [3, 0], [2, 1, 2, 0]]
+      = .ok [[9], [2, 1, 3, 0, 6], [3, 0], [2, 1, 2, 0]] :=
+  ⟨select_idem (χ := Nat) 0 1 (by decide) ⟨some [[2]], none, none⟩ ⟨none, some [[5]], none⟩ rfl rfl 1 7
+      (by omega) exLines _ (by decide +kernel),
+   (keep_idem (χ := Nat) 0 1 (by decide) [[2]] [] 1 3 (by omega) exLines _).1 (by decide +kernel),
+   (remove_idem (χ := Nat) 0 1 (by decide) [] [[5]] 1 3 (by omega) exLines _).2.1 (by decide +kernel)⟩
+
+/-- `malformed_raises`, `constructor_raises`, `chunk_zero_raises`,
+    `constructor_table` APPLIED. -/
+example :
+    filterEventFile 0 1 ⟨some [[2]], none, none⟩ ⟨none, none, none⟩ 4 ([9] :: [[2, 0, 5], [2, 0, 5, 0, 7]])
+      = .error .value ∧
+    filterEventFile 0 1 ⟨some [[2]], some [[3]], none⟩ ⟨none, none, none⟩ 4 exLines = .error .value ∧
+    filterEventFile 0 1 ⟨some [[2]], none, none⟩ ⟨none, none, none⟩ 0 exLines = .error .value ∧
+    (selectRule (⟨some [[2]], none, some []⟩ : SideArgs Nat) = .error .value ↔
+      2 ≤ (⟨some [[2]], none, some []⟩ : SideArgs Nat).given) :=
+  ⟨malformed_raises (χ := Nat) 0 1 _ _ 4 [9] _ ⟨[2, 0, 5, 0, 7], by simp, by decide +kernel⟩,
+   constructor_raises (χ := Nat) 0 1 _ _ 4 exLines (Or.inl (by decide)),
+   chunk_zero_raises (χ := Nat) 0 1 _ _ exLines,
+   (constructor_table (χ := Nat) _).1⟩
+
+/-- `drop_iff_no_cue` APPLIED to the second and the first event line: the line
+    `3⇥5` loses its only cue and is dropped; `2_3⇥5_6` is rewritten. -/
+example :
+    filterLine 0 1 (.keep [[2]]) (.remove [[5]]) ([3, 0, 5] : Str Nat) = .ok none ∧
+    filterLine 0 1 (.keep [[2]]) (.remove [[5]]) ([2, 1, 3, 0, 5, 1, 6] : Str Nat)
+      = .ok (some (joinWith 1 ((Rule.keep [[2]]).apply (splitOn 1 [2, 1, 3])) ++ 0 ::
+                    joinWith 1 ((Rule.remove [[5]]).apply (splitOn 1 [5, 1, 6])))) :=
+  ⟨((drop_iff_no_cue (χ := Nat) 0 1 _ _ [3, 0, 5] [3] [5] (by decide +kernel)).1).2 (by decide +kernel),
+   (drop_iff_no_cue (χ := Nat) 0 1 _ _ [2, 1, 3, 0, 5, 1, 6] [2, 1, 3] [5, 1, 6] (by decide +kernel)).2
+      (by decide +kernel)⟩
+
 /-! ### lemmas (not property theorems)
 
 `rfl` / `decide`-level facts and facts that hold for any `filterMap`; kept
